@@ -29,21 +29,21 @@ package filecachepb
 //@ func dayIntervalToProtobuf
 //@   property C14
 //@   modifies heap
-//@   preserves filter.DayInterval.*, filter.ConfigSchedule.*, DayInterval.*, allelems(*filter.DayInterval)
+//@   preserves filter.DayInterval.*, filter.ConfigSchedule.*, DayInterval.*, allelems(*filter.DayInterval), filter.ConfigClient.*, filter.ConfigCustom.*, filter.ConfigParental.*, filter.ConfigRuleList.*, filter.ConfigSafeBrowsing.*, allelems(filter.RuleText), allelems(filter.BlockedServiceID), allelems(filter.ID), agd.Profile.*, allelems(*agd.Profile), FilterConfig.*, FilterConfig_Custom.*, FilterConfig_Parental.*, FilterConfig_RuleList.*, FilterConfig_SafeBrowsing.*, Profile.*, allelems(*Profile)
 //@   ensures the-interval-as-it-is: sameDay(ivl, i) && (ivl != nil ==> fresh(ivl))
 
 //@ func (*DayInterval).toInternal
 //@   property C14
 //@   nilrecv
 //@   modifies heap
-//@   preserves DayInterval.*, filter.DayInterval.*, FilterConfig_Schedule.*, FilterConfig_WeeklySchedule.*
+//@   preserves DayInterval.*, filter.DayInterval.*, FilterConfig_Schedule.*, FilterConfig_WeeklySchedule.*, Profile.*, FilterConfig.*, FilterConfig_Custom.*, FilterConfig_Parental.*, FilterConfig_RuleList.*, FilterConfig_SafeBrowsing.*, Access.*, CidrRange.*, Ratelimiter.*, allelems(*CidrRange), allelems(uint32), allelems(string), allelems(byte)
 //@   ensures the-interval-as-it-was-stored: readDay(i, x) && (i != nil ==> fresh(i))
 
 //@ func scheduleToProtobuf
 //@   property C14
 //@   requires c != nil ==> c.Week != nil && c.TimeZone != nil
 //@   modifies heap
-//@   preserves filter.DayInterval.*, filter.ConfigSchedule.*, allelems(*filter.DayInterval)
+//@   preserves filter.DayInterval.*, filter.ConfigSchedule.*, allelems(*filter.DayInterval), filter.ConfigClient.*, filter.ConfigCustom.*, filter.ConfigParental.*, filter.ConfigRuleList.*, filter.ConfigSafeBrowsing.*, allelems(filter.RuleText), allelems(filter.BlockedServiceID), allelems(filter.ID), agd.Profile.*, allelems(*agd.Profile), FilterConfig.*, FilterConfig_Custom.*, FilterConfig_Parental.*, FilterConfig_RuleList.*, FilterConfig_SafeBrowsing.*, Profile.*, allelems(*Profile)
 //@   ensures c == nil ==> conf == nil
 //@   ensures every-day-stores-its-own-interval: c != nil ==> conf != nil && conf.Week != nil &&
 //@             sameDay(conf.Week.Sun, c.Week[0]) && sameDay(conf.Week.Mon, c.Week[1]) && sameDay(conf.Week.Tue, c.Week[2]) && sameDay(conf.Week.Wed, c.Week[3]) &&
@@ -54,7 +54,7 @@ package filecachepb
 //@   nilrecv
 //@   requires x != nil ==> x.Week != nil
 //@   modifies heap
-//@   preserves DayInterval.*, FilterConfig_Schedule.*, FilterConfig_WeeklySchedule.*
+//@   preserves DayInterval.*, FilterConfig_Schedule.*, FilterConfig_WeeklySchedule.*, Profile.*, FilterConfig.*, FilterConfig_Custom.*, FilterConfig_Parental.*, FilterConfig_RuleList.*, FilterConfig_SafeBrowsing.*, Access.*, CidrRange.*, Ratelimiter.*, allelems(*CidrRange), allelems(uint32), allelems(string), allelems(byte)
 //@   ensures x == nil ==> c == nil && err == nil
 //@   ensures every-day-reads-its-own-interval: x != nil && err == nil ==> c != nil && c.Week != nil &&
 //@             readDay(c.Week[0], x.Week.Sun) && readDay(c.Week[1], x.Week.Mon) && readDay(c.Week[2], x.Week.Tue) && readDay(c.Week[3], x.Week.Wed) &&
@@ -79,7 +79,7 @@ package filecachepb
 //@   property C14
 //@   requires validNets(nets)
 //@   modifies heap, ipBytes
-//@   preserves access.ProfileConfig.*, allelems(netip.Prefix), allelems(geoip.ASN), allelems(string), allelems(uint32), CidrRange.*, allelems(*CidrRange), Access.*
+//@   preserves access.ProfileConfig.*, allelems(netip.Prefix), allelems(geoip.ASN), allelems(string), allelems(uint32), CidrRange.*, allelems(*CidrRange), Access.*, agd.Profile.*, allelems(*agd.Profile), Profile.*, allelems(*Profile), filter.ConfigClient.*, filter.ConfigCustom.*, filter.ConfigParental.*, filter.ConfigRuleList.*, filter.ConfigSafeBrowsing.*, filter.ConfigSchedule.*
 //@   ensures earlier-ranges-keep-their-addresses: forall k int :: old(allocated(k)) ==> ipBytes[k] == old(ipBytes[k])
 //@   ensures every-network-in-order: len(cidrs) == len(nets) && (forall i int :: 0 <= i && i < len(nets) ==> storedNet(cidrs[i], nets[i]))
 //@   ensures len(nets) > 0 ==> fresh(cidrs)
@@ -90,7 +90,7 @@ package filecachepb
 //@ func asnToInternal
 //@   property C14
 //@   modifies heap
-//@   preserves Access.*, allelems(uint32), allelems(*CidrRange), CidrRange.*, allelems(string), allelems(byte), allelems(netip.Prefix), allelems(geoip.ASN), access.ProfileConfig.*
+//@   preserves Access.*, allelems(uint32), allelems(*CidrRange), CidrRange.*, allelems(string), allelems(byte), allelems(netip.Prefix), allelems(geoip.ASN), access.ProfileConfig.*, Profile.*, FilterConfig.*, FilterConfig_Custom.*, FilterConfig_Parental.*, FilterConfig_RuleList.*, FilterConfig_SafeBrowsing.*, Ratelimiter.*, filter.ConfigClient.*, filter.ConfigCustom.*, filter.ConfigParental.*, filter.ConfigRuleList.*, filter.ConfigSafeBrowsing.*
 //@   ensures every-asn-in-order: len(out) == len(asns) && (forall i int :: 0 <= i && i < len(asns) ==> out[i] == asns[i])
 //@   loop 1 invariant -1 <= #i && #i < len(asns) && len(out) == #i + 1 && (#i >= 0 ==> fresh(out)) && (#i < 0 ==> arr(out) == 0)
 //@   loop 1 invariant forall j int :: 0 <= j && j <= #i ==> out[j] == asns[j]
@@ -99,7 +99,7 @@ package filecachepb
 //@   property C14
 //@   requires forall i int :: 0 <= i && i < len(cidrs) ==> cidrs[i] != nil && (len(cidrs[i].Address) == 4 || len(cidrs[i].Address) == 16)
 //@   modifies heap
-//@   preserves Access.*, allelems(uint32), allelems(*CidrRange), CidrRange.*, allelems(string), allelems(byte), allelems(netip.Prefix), allelems(geoip.ASN), access.ProfileConfig.*
+//@   preserves Access.*, allelems(uint32), allelems(*CidrRange), CidrRange.*, allelems(string), allelems(byte), allelems(netip.Prefix), allelems(geoip.ASN), access.ProfileConfig.*, Profile.*, FilterConfig.*, FilterConfig_Custom.*, FilterConfig_Parental.*, FilterConfig_RuleList.*, FilterConfig_SafeBrowsing.*, Ratelimiter.*, filter.ConfigClient.*, filter.ConfigCustom.*, filter.ConfigParental.*, filter.ConfigRuleList.*, filter.ConfigSafeBrowsing.*
 //@   ensures every-network-as-stored: len(out) == len(cidrs) && (forall i int :: 0 <= i && i < len(cidrs) ==> out[i] == prefixFrom(addrFromBytes(strof(cidrs[i].Address)), cidrs[i].Prefix))
 //@   loop 1 invariant -1 <= #i && #i < len(cidrs) && len(out) == #i + 1 && (#i >= 0 ==> fresh(out)) && (#i < 0 ==> arr(out) == 0)
 //@   loop 1 invariant forall j int :: 0 <= j && j <= #i ==> out[j] == prefixFrom(addrFromBytes(strof(cidrs[j].Address)), cidrs[j].Prefix)
@@ -108,7 +108,7 @@ package filecachepb
 //@   property C14
 //@   requires c != nil ==> validNets(c.AllowedNets) && validNets(c.BlockedNets)
 //@   modifies heap, ipBytes
-//@   preserves access.ProfileConfig.*, allelems(netip.Prefix), allelems(geoip.ASN), allelems(string)
+//@   preserves access.ProfileConfig.*, allelems(netip.Prefix), allelems(geoip.ASN), allelems(string), agd.Profile.*, allelems(*agd.Profile), Profile.*, allelems(*Profile), filter.ConfigClient.*, filter.ConfigCustom.*, filter.ConfigParental.*, filter.ConfigRuleList.*, filter.ConfigSafeBrowsing.*, filter.ConfigSchedule.*
 //@   ensures no-settings-no-message: c == nil ==> ac == nil
 //@   ensures settings-are-always-written: c != nil ==> ac != nil && fresh(ac)
 //@   ensures every-asn-in-order: c != nil ==> len(ac.AllowlistAsn) == len(c.AllowedASN) && len(ac.BlocklistAsn) == len(c.BlockedASN) &&
@@ -133,7 +133,7 @@ package filecachepb
 //@   nilrecv
 //@   requires x != nil ==> wellFormedRanges(x.AllowlistCidr) && wellFormedRanges(x.BlocklistCidr)
 //@   modifies heap
-//@   preserves Access.*, allelems(uint32), allelems(*CidrRange), CidrRange.*, allelems(string), allelems(byte)
+//@   preserves Access.*, allelems(uint32), allelems(*CidrRange), CidrRange.*, allelems(string), allelems(byte), Profile.*, FilterConfig.*, FilterConfig_Custom.*, FilterConfig_Parental.*, FilterConfig_RuleList.*, FilterConfig_SafeBrowsing.*, Ratelimiter.*, filter.ConfigClient.*, filter.ConfigCustom.*, filter.ConfigParental.*, filter.ConfigRuleList.*, filter.ConfigSafeBrowsing.*
 //@   ensures no-message-no-restrictions: x == nil ==> istype(a, access.EmptyProfile)
 //@   ensures what-was-stored-is-what-applies: x != nil ==> isptr(a, access.DefaultProfile) && asptr(a, access.DefaultProfile) != nil &&
 //@             readNets(asptr(a, access.DefaultProfile).allowedNets, x.AllowlistCidr) && readNets(asptr(a, access.DefaultProfile).blockedNets, x.BlocklistCidr) &&
@@ -175,3 +175,165 @@ package filecachepb
 //@   ensures enabled-is-stored-as-it-is: s != nil && s.Enabled ==> a != nil && a.DohAuthOnly == s.DoHAuthOnly &&
 //@             (istype(s.PasswordHash, agdpasswd.AllowAuthenticator) ==> a.DohPasswordHash == nil) &&
 //@             (isptr(s.PasswordHash, agdpasswd.PasswordHashBcrypt) ==> isptr(a.DohPasswordHash, AuthenticationSettings_PasswordHashBcrypt))
+
+// ---------------------------------------------------------------------------
+// C14, file-cache codec, devices and the profile's own fields: every field is
+// written from, and read back into, the field of the same name - no field
+// takes another's value, none is dropped (the weekly schedule, the access
+// settings and the authentication settings have their own contracts above).
+//
+// Assumed helpers: the address and time conversions are functions of their
+// argument (MarshalBinary / UnmarshalBinary, timestamppb, durationpb), and
+// unsafelyConvertStrSlice (package unsafe: outside the subset) returns the
+// same strings in the same order.
+//@ import timestamppb google.golang.org/protobuf/types/known/timestamppb
+//@ import durationpb google.golang.org/protobuf/types/known/durationpb
+//@ import agdprotobuf github.com/AdguardTeam/AdGuardDNS/internal/agdprotobuf
+//@ import dnsmsg github.com/AdguardTeam/AdGuardDNS/internal/dnsmsg
+//@ ghost tsTime map[*timestamppb.Timestamp]time.Time
+//@ ghost durVal map[*durationpb.Duration]int
+//@ func timestamppb.New
+//@   modifies tsTime
+//@   ensures result != nil && fresh(result) && tsTime[result] == t && (forall o *timestamppb.Timestamp :: o != result ==> tsTime[o] == old(tsTime[o]))
+//@ func (*timestamppb.Timestamp).AsTime
+//@   modifies nothing
+//@   ensures result == tsTime[x]
+//@ func durationpb.New
+//@   modifies durVal
+//@   ensures result != nil && fresh(result) && durVal[result] == d && (forall o *durationpb.Duration :: o != result ==> durVal[o] == old(durVal[o]))
+//@ func (*durationpb.Duration).AsDuration
+//@   modifies nothing
+//@   ensures result == durVal[x]
+//@ func unsafelyConvertStrSlice
+//@   modifies nothing
+//@   ensures len(res) == len(s) && (forall i int :: 0 <= i && i < len(s) ==> res[i] == s[i]) && arr(res) == arr(s) && off(res) == off(s)
+// binOf(ip): the bytes MarshalBinary writes for an address; ipsOf: what
+// ByteSlicesToIPs reads (an error for a malformed entry).
+//@ fun ipOfBin(b string) netip.Addr
+//@ ghost lastIPs []netip.Addr
+//@ func ipToBytes
+//@   modifies ipBytes
+//@   ensures ipBytes[arr(b)] == ip && (arr(b) == 0 || fresh(b)) && (forall k int :: old(allocated(k)) && k != 0 ==> ipBytes[k] == old(ipBytes[k]))
+//@ func ipsToByteSlices
+//@   modifies ipBytes
+//@   ensures len(data) == len(ips) && (forall i int :: 0 <= i && i < len(ips) ==> ipBytes[arr(data[i])] == ips[i])
+//@   ensures (ips == nil) == (data == nil)
+//@ func agdprotobuf.ByteSlicesToIPs
+//@   modifies lastIPs
+//@   ensures err == nil ==> lastIPs == ips && len(ips) == len(data)
+//@ func (*netip.Addr).UnmarshalBinary
+//@   results err
+//@   modifies deref(ip)
+//@   ensures err == nil ==> deref(ip) == ipOfBin(strof(b))
+
+//@ func (*Device).toInternal
+//@   property C14
+//@   requires x != nil && (x.Authentication != nil && isptr(x.Authentication.DohPasswordHash, AuthenticationSettings_PasswordHashBcrypt) ==> asptr(x.Authentication.DohPasswordHash, AuthenticationSettings_PasswordHashBcrypt) != nil)
+//@   modifies lastIPs
+//@   ensures every-field-from-its-own: err == nil ==> d != nil && fresh(d) && d.ID == x.DeviceId && d.Name == x.DeviceName && d.HumanIDLower == x.HumanIdLower &&
+//@             d.FilteringEnabled == x.FilteringEnabled && d.LinkedIP == ipOfBin(strof(x.LinkedIp)) && d.DedicatedIPs == lastIPs && len(d.DedicatedIPs) == len(x.DedicatedIps) &&
+//@             d.Auth != nil && d.Auth.Enabled == (x.Authentication != nil) && okAuth(d.Auth.PasswordHash) && (x.Authentication != nil ==> d.Auth.DoHAuthOnly == x.Authentication.DohAuthOnly)
+
+//@ pred goodAuth(s *agd.AuthSettings) = s != nil && s.Enabled ==> istype(s.PasswordHash, agdpasswd.AllowAuthenticator) || (isptr(s.PasswordHash, agdpasswd.PasswordHashBcrypt) && ref(s.PasswordHash) != 0)
+//@ func devicesToProtobuf
+//@   property C14
+//@   requires forall i int :: 0 <= i && i < len(devices) ==> devices[i] != nil && goodAuth(devices[i].Auth)
+//@   modifies heap, ipBytes
+//@   preserves agd.Device.*, agd.AuthSettings.*, allelems(*agd.Device), allelems(netip.Addr)
+//@   ensures every-device-in-order-every-field-from-its-own: len(pbDevices) == len(devices) && (forall i int :: 0 <= i && i < len(devices) ==>
+//@             pbDevices[i] != nil && pbDevices[i].DeviceId == devices[i].ID && pbDevices[i].DeviceName == devices[i].Name && pbDevices[i].HumanIdLower == devices[i].HumanIDLower &&
+//@             pbDevices[i].FilteringEnabled == devices[i].FilteringEnabled && len(pbDevices[i].DedicatedIps) == len(devices[i].DedicatedIPs) &&
+//@             (pbDevices[i].Authentication != nil) == (devices[i].Auth != nil && devices[i].Auth.Enabled))
+//@   loop 1 invariant -1 <= #i && #i < len(devices) && len(pbDevices) == #i + 1 && fresh(pbDevices)
+//@   loop 1 invariant forall j int :: 0 <= j && j <= #i ==> pbDevices[j] != nil && fresh(pbDevices[j]) && pbDevices[j].DeviceId == devices[j].ID && pbDevices[j].DeviceName == devices[j].Name &&
+//@             pbDevices[j].HumanIdLower == devices[j].HumanIDLower && pbDevices[j].FilteringEnabled == devices[j].FilteringEnabled && len(pbDevices[j].DedicatedIps) == len(devices[j].DedicatedIPs) &&
+//@             (pbDevices[j].Authentication != nil) == (devices[j].Auth != nil && devices[j].Auth.Enabled)
+
+//@ pred fcWellFormed(c *filter.ConfigClient) = c != nil && c.Custom != nil && c.Parental != nil && c.RuleList != nil && c.SafeBrowsing != nil &&
+//@      (c.Parental.PauseSchedule != nil ==> c.Parental.PauseSchedule.Week != nil && c.Parental.PauseSchedule.TimeZone != nil)
+//@ pred sameFlags(fc *FilterConfig, c *filter.ConfigClient) = fc != nil && fc.Custom != nil && fc.Parental != nil && fc.RuleList != nil && fc.SafeBrowsing != nil &&
+//@      fc.Custom.Id == c.Custom.ID && fc.Custom.Enabled == c.Custom.Enabled && len(fc.Custom.Rules) == len(c.Custom.Rules) &&
+//@      fc.Parental.Enabled == c.Parental.Enabled && fc.Parental.AdultBlockingEnabled == c.Parental.AdultBlockingEnabled &&
+//@      fc.Parental.SafeSearchGeneralEnabled == c.Parental.SafeSearchGeneralEnabled && fc.Parental.SafeSearchYoutubeEnabled == c.Parental.SafeSearchYouTubeEnabled &&
+//@      len(fc.Parental.BlockedServices) == len(c.Parental.BlockedServices) && (fc.Parental.PauseSchedule == nil) == (c.Parental.PauseSchedule == nil) &&
+//@      fc.RuleList.Enabled == c.RuleList.Enabled && len(fc.RuleList.Ids) == len(c.RuleList.IDs) &&
+//@      fc.SafeBrowsing.Enabled == c.SafeBrowsing.Enabled && fc.SafeBrowsing.DangerousDomainsEnabled == c.SafeBrowsing.DangerousDomainsEnabled &&
+//@      fc.SafeBrowsing.NewlyRegisteredDomainsEnabled == c.SafeBrowsing.NewlyRegisteredDomainsEnabled
+
+//@ func filterConfigToProtobuf
+//@   property C14
+//@   requires fcWellFormed(c)
+//@   modifies heap, tsTime
+//@   preserves filter.ConfigClient.*, filter.ConfigCustom.*, filter.ConfigParental.*, filter.ConfigRuleList.*, filter.ConfigSafeBrowsing.*, filter.ConfigSchedule.*, filter.DayInterval.*,
+//@             allelems(*filter.DayInterval), allelems(filter.RuleText), allelems(filter.BlockedServiceID), allelems(filter.ID), agd.Profile.*, allelems(*agd.Profile), Profile.*, allelems(*Profile)
+//@   ensures every-switch-from-its-own: sameFlags(fc, c) && fresh(fc) && tsTime[fc.Custom.UpdateTime] == c.Custom.UpdateTime
+
+//@ pred pbWellFormed(x *Profile) = x != nil && x.FilterConfig != nil && x.FilterConfig.Custom != nil && x.FilterConfig.Parental != nil && x.FilterConfig.RuleList != nil && x.FilterConfig.SafeBrowsing != nil &&
+//@      (x.FilterConfig.Parental.PauseSchedule != nil ==> x.FilterConfig.Parental.PauseSchedule.Week != nil) &&
+//@      (x.Access != nil ==> wellFormedRanges(x.Access.AllowlistCidr) && wellFormedRanges(x.Access.BlocklistCidr)) && (x.Ratelimiter != nil ==> wellFormedRanges(x.Ratelimiter.ClientCidr))
+
+//@ func blockingModeToInternal
+//@   modifies heap, lastIPs
+//@   preserves Profile.*, FilterConfig.*, FilterConfig_Custom.*, FilterConfig_Parental.*, FilterConfig_RuleList.*, FilterConfig_SafeBrowsing.*, FilterConfig_Schedule.*, FilterConfig_WeeklySchedule.*, DayInterval.*,
+//@             Access.*, CidrRange.*, Ratelimiter.*, allelems(*CidrRange), allelems(uint32), allelems(string), allelems(byte)
+//@ func (*Ratelimiter).toInternal
+//@   nilrecv
+//@   modifies heap
+//@   preserves Profile.*, FilterConfig.*, FilterConfig_Custom.*, FilterConfig_Parental.*, FilterConfig_RuleList.*, FilterConfig_SafeBrowsing.*, FilterConfig_Schedule.*, FilterConfig_WeeklySchedule.*, DayInterval.*,
+//@             Access.*, CidrRange.*, Ratelimiter.*, allelems(*CidrRange), allelems(uint32), allelems(string), allelems(byte), filter.ConfigClient.*, filter.ConfigCustom.*, filter.ConfigParental.*, filter.ConfigRuleList.*, filter.ConfigSafeBrowsing.*
+
+//@ func (*Profile).toInternal
+//@   property C14
+//@   requires pbWellFormed(x)
+//@   modifies heap, lastIPs
+//@   preserves Profile.*, FilterConfig.*, FilterConfig_Custom.*, FilterConfig_Parental.*, FilterConfig_RuleList.*, FilterConfig_SafeBrowsing.*, allelems(string)
+//@   ensures every-field-from-its-own: err == nil ==> prof != nil && prof.ID == x.ProfileId && len(prof.DeviceIDs) == len(x.DeviceIds) &&
+//@             prof.FilteredResponseTTL == durVal[x.FilteredResponseTtl] &&
+//@             prof.AutoDevicesEnabled == x.AutoDevicesEnabled && prof.BlockChromePrefetch == x.BlockChromePrefetch && prof.BlockFirefoxCanary == x.BlockFirefoxCanary &&
+//@             prof.BlockPrivateRelay == x.BlockPrivateRelay && prof.Deleted == x.Deleted && prof.FilteringEnabled == x.FilteringEnabled &&
+//@             prof.IPLogEnabled == x.IpLogEnabled && prof.QueryLogEnabled == x.QueryLogEnabled
+//@   ensures every-switch-from-its-own: err == nil ==> prof.FilterConfig != nil && prof.FilterConfig.Custom != nil && prof.FilterConfig.Parental != nil && prof.FilterConfig.RuleList != nil && prof.FilterConfig.SafeBrowsing != nil &&
+//@             prof.FilterConfig.Custom.ID == x.FilterConfig.Custom.Id && prof.FilterConfig.Custom.Enabled == x.FilterConfig.Custom.Enabled &&
+//@             prof.FilterConfig.Custom.UpdateTime == tsTime[x.FilterConfig.Custom.UpdateTime] &&
+//@             prof.FilterConfig.Parental.Enabled == x.FilterConfig.Parental.Enabled && prof.FilterConfig.Parental.AdultBlockingEnabled == x.FilterConfig.Parental.AdultBlockingEnabled &&
+//@             prof.FilterConfig.Parental.SafeSearchGeneralEnabled == x.FilterConfig.Parental.SafeSearchGeneralEnabled &&
+//@             prof.FilterConfig.Parental.SafeSearchYouTubeEnabled == x.FilterConfig.Parental.SafeSearchYoutubeEnabled &&
+//@             prof.FilterConfig.RuleList.Enabled == x.FilterConfig.RuleList.Enabled &&
+//@             prof.FilterConfig.SafeBrowsing.Enabled == x.FilterConfig.SafeBrowsing.Enabled &&
+//@             prof.FilterConfig.SafeBrowsing.DangerousDomainsEnabled == x.FilterConfig.SafeBrowsing.DangerousDomainsEnabled &&
+//@             prof.FilterConfig.SafeBrowsing.NewlyRegisteredDomainsEnabled == x.FilterConfig.SafeBrowsing.NewlyRegisteredDomainsEnabled
+
+//@ interface access.Profile method Config
+//@   modifies nothing
+//@   ensures conf != nil ==> validNets(conf.AllowedNets) && validNets(conf.BlockedNets)
+//@ interface agd.Ratelimiter method Config
+//@   modifies nothing
+//@ func blockingModeToProtobuf
+//@   modifies heap, ipBytes
+//@   preserves agd.Profile.*, allelems(*agd.Profile), Profile.*, allelems(*Profile), filter.ConfigClient.*, filter.ConfigCustom.*, filter.ConfigParental.*, filter.ConfigRuleList.*, filter.ConfigSafeBrowsing.*, filter.ConfigSchedule.*,
+//@             FilterConfig.*, FilterConfig_Custom.*, FilterConfig_Parental.*, FilterConfig_RuleList.*, FilterConfig_SafeBrowsing.*, Access.*, allelems(agd.DeviceID)
+//@ func ratelimiterToProtobuf
+//@   modifies heap, ipBytes
+//@   preserves agd.Profile.*, allelems(*agd.Profile), Profile.*, allelems(*Profile), filter.ConfigClient.*, filter.ConfigCustom.*, filter.ConfigParental.*, filter.ConfigRuleList.*, filter.ConfigSafeBrowsing.*, filter.ConfigSchedule.*,
+//@             FilterConfig.*, FilterConfig_Custom.*, FilterConfig_Parental.*, FilterConfig_RuleList.*, FilterConfig_SafeBrowsing.*, Access.*, allelems(agd.DeviceID)
+
+//@ func profilesToProtobuf
+//@   property C14
+//@   requires forall i int :: 0 <= i && i < len(profiles) ==> profiles[i] != nil && fcWellFormed(profiles[i].FilterConfig) && ref(profiles[i].Access) != 0 && ref(profiles[i].Ratelimiter) != 0
+//@   modifies heap, ipBytes, tsTime, durVal
+//@   preserves agd.Profile.*, allelems(*agd.Profile)
+//@   ensures every-profile-in-order-every-field-from-its-own: len(pbProfiles) == len(profiles) && (forall i int :: 0 <= i && i < len(profiles) ==>
+//@             pbProfiles[i] != nil && pbProfiles[i].ProfileId == profiles[i].ID && len(pbProfiles[i].DeviceIds) == len(profiles[i].DeviceIDs) &&
+//@             durVal[pbProfiles[i].FilteredResponseTtl] == profiles[i].FilteredResponseTTL &&
+//@             pbProfiles[i].AutoDevicesEnabled == profiles[i].AutoDevicesEnabled && pbProfiles[i].BlockChromePrefetch == profiles[i].BlockChromePrefetch &&
+//@             pbProfiles[i].BlockFirefoxCanary == profiles[i].BlockFirefoxCanary && pbProfiles[i].BlockPrivateRelay == profiles[i].BlockPrivateRelay &&
+//@             pbProfiles[i].Deleted == profiles[i].Deleted && pbProfiles[i].FilteringEnabled == profiles[i].FilteringEnabled &&
+//@             pbProfiles[i].IpLogEnabled == profiles[i].IPLogEnabled && pbProfiles[i].QueryLogEnabled == profiles[i].QueryLogEnabled)
+//@   loop 1 invariant -1 <= #i && #i < len(profiles) && len(pbProfiles) == #i + 1 && fresh(pbProfiles) && cap(pbProfiles) == len(profiles)
+//@   loop 1 invariant forall i int :: 0 <= i && i < len(profiles) ==> profiles[i] != nil && fcWellFormed(profiles[i].FilterConfig) && ref(profiles[i].Access) != 0 && ref(profiles[i].Ratelimiter) != 0
+//@   loop 1 invariant forall j int :: 0 <= j && j <= #i ==> pbProfiles[j] != nil && fresh(pbProfiles[j])
+//@   loop 1 invariant forall j int :: 0 <= j && j <= #i ==> pbProfiles[j].ProfileId == profiles[j].ID
+//@   loop 1 invariant forall j int :: 0 <= j && j <= #i ==> len(pbProfiles[j].DeviceIds) == len(profiles[j].DeviceIDs)
+//@   loop 1 invariant forall j int :: 0 <= j && j <= #i ==> allocated(pbProfiles[j].FilteredResponseTtl) && durVal[pbProfiles[j].FilteredResponseTtl] == profiles[j].FilteredResponseTTL
+//@   loop 1 invariant forall j int :: 0 <= j && j <= #i ==> pbProfiles[j].AutoDevicesEnabled == profiles[j].AutoDevicesEnabled && pbProfiles[j].BlockChromePrefetch == profiles[j].BlockChromePrefetch && pbProfiles[j].BlockFirefoxCanary == profiles[j].BlockFirefoxCanary && pbProfiles[j].BlockPrivateRelay == profiles[j].BlockPrivateRelay
+//@   loop 1 invariant forall j int :: 0 <= j && j <= #i ==> pbProfiles[j].Deleted == profiles[j].Deleted && pbProfiles[j].FilteringEnabled == profiles[j].FilteringEnabled && pbProfiles[j].IpLogEnabled == profiles[j].IPLogEnabled && pbProfiles[j].QueryLogEnabled == profiles[j].QueryLogEnabled
